@@ -245,6 +245,10 @@ def _trees(store, outside_abs):
         "x_link_sibling_file": [(b"x", L, b"../wt-backup/target"), (b"README", F, b"hello\n")],
         "d_dir": [(b"d/f", F, MARK), (b"d/g/h", F, MARK)],
         "x_link_dotgit_file": [(b"x", L, b".git/config")],
+        # a regular file exactly as long as the link targets above it may replace ("../wt-backup/target" = 19 bytes,
+        # ".git/config" = 11 bytes): size-based shortcuts must not keep the symlink and write through it
+        "x_file_19_bytes": [(b"x", F, MARK[:18] + b"\n")],
+        "x_file_11_bytes": [(b"x", F, MARK[:10] + b"\n")],
         "d_link_dotgit": [(b"d", L, b".git")],
         "dotgit_upper": [(b".GIT/hooks/pre-commit", F, MARK)],
         "dotgit_ntfs": [(b".git ./config", F, MARK), (b"git~1/config", F, MARK)],
@@ -304,10 +308,11 @@ def h_compose(eng, first="plain", steps=3):
         names = sorted(pool)
         before_out, before_sib = _snap(outside), _snap(sibling)
         git_before = {k for k in _snap(os.path.join(wt, ".git")) if not k.startswith("objects")}
+        config_before = _snap(os.path.join(wt, ".git")).get("config")
         seq = []
         for s in range(steps):
             nm = first if s == 0 else names[eng.choice(f"tree{s}", len(names))]
-            mode = "hard" if s == 0 else ["hard", "mixed", "patch"][eng.choice(f"mode{s}", 3)]
+            mode = "hard" if s == 0 else ["hard", "mixed", "patch", "reset_index"][eng.choice(f"mode{s}", 4)]
             seq.append((nm, mode))
         parent = []
         for nm, mode in seq:
@@ -330,6 +335,8 @@ def h_compose(eng, first="plain", steps=3):
                             diff += (b"diff --git a/%s b/%s\n--- /dev/null\n+++ b/%s\n@@ -0,0 +1 @@\n+" % (path, path, path)) + MARK
                     if diff:
                         porcelain.apply_patch(r, _io.BytesIO(diff))
+                elif mode == "reset_index":
+                    r.get_worktree().reset_index(tid)        # build_index_from_tree on top of the existing work tree
                 else:
                     porcelain.reset(r, mode, c.id)
             except Exception:
@@ -341,6 +348,7 @@ def h_compose(eng, first="plain", steps=3):
         git_after = _snap(os.path.join(wt, ".git"))
         bad = [k for k, v in git_after.items() if not k.startswith("objects") and v[0] == "file" and MARK in v[1]]
         eng.prove(not bad, f"{tag} no tree content was written into .git: {bad}")
+        eng.prove(git_after.get("config") == config_before, f"{tag} .git/config is untouched: {git_after.get('config')}")
         new = {k for k in git_after if not k.startswith("objects")} - git_before - {"index", "ORIG_HEAD", "HEAD"}
         new = {k for k in new if not k.startswith("refs/") and not k.startswith("logs/")}
         eng.prove(not new, f"{tag} no foreign file appeared in .git: {sorted(new)}")
@@ -351,14 +359,14 @@ def h_compose(eng, first="plain", steps=3):
 def checks(tier):
     q = ("quick", "thorough")
     pool_names = ["absolute", "d_dir", "d_link_abs", "d_link_dotgit", "d_link_parent", "d_link_sibling", "dotdot", "dotgit_ntfs",
-                  "dotgit_upper", "plain", "x_link_dotgit_file", "x_link_sibling_file"]
+                  "dotgit_upper", "plain", "x_file_11_bytes", "x_file_19_bytes", "x_link_dotgit_file", "x_link_sibling_file"]
     return _b17(tier) + [
         KCheck("C17c.composition", h_compose, parts=[{"first": f, "steps": 3} for f in pool_names],
                encoded=["dulwich.porcelain.reset/apply_patch", "dulwich.index.build_index_from_tree/update_working_tree/verify_leading_dirs/"
                         "validate_path/build_file_from_blob", "dulwich.patch.apply_patches/_ensure_within_repo/_validate_patch_target"],
-               bounds="every sequence of 3 steps: a tree from an adversarial pool of 12 (symlinks to ../outside, to an absolute path, to a "
+               bounds="every sequence of 3 steps: a tree from an adversarial pool of 14 (symlinks to ../outside, to an absolute path, to a "
                       "sibling directory whose name extends the work tree's, to a file in it, to .git and to .git/config; directory of the same name; .GIT, "
-                      "'.git .', git~1, '..' and absolute entry names) applied by reset --hard, reset --mixed or as a patch rewriting "
+                      "'.git .', git~1, '..' and absolute entry names) applied by reset --hard, reset --mixed, WorkTree.reset_index (checkout on top of what is there) or as a patch rewriting "
                       "the tree's files; real directories with canaries outside the work tree",
                outside="sequences longer than 3; clone/stash entry points; real NTFS/HFS+ file systems", time_budget=2400, tiers=q),
     ]
